@@ -69,6 +69,10 @@ class CallMixin:
             return Opaque(fv.desc + "()", ambient=amb)
         if isinstance(fv, ModV) and fv.dotted:
             return self.call_ext(fv.dotted, None, args, kwargs, frame, node)
+        if isinstance(fv, Num) and fv.r.single_atom() is not None:
+            # method of an uninterpreted (library) result, e.g. numpy.arange(...).tolist(): an uninterpreted pure function of it
+            keys = (fv.r,) + tuple(val_key(self.resolve_maybe(a)) for a in args) + tuple((k, val_key(self.resolve_maybe(v))) for k, v in sorted(kwargs.items()))
+            return Num(Rat.atom(poly.T.app("fn", "call", keys)))
         raise Unmodelled("call of %r at %s" % (fv, frame.loc(node)))
 
     # -- lambdas and nested defs --------------------------------------------
@@ -218,8 +222,14 @@ class CallMixin:
             return self.list_method(d[5:], self_val, args, kwargs, frame, node)
         if d.startswith("dict."):
             m = d[5:]
-            if m == "get" and isinstance(args[0], StrV) and args[0].s is not None:
-                return self_val.items.get(args[0].s, args[1] if len(args) > 1 else NONE)
+            if m == "get" and isinstance(args[0], StrV):
+                k = args[0] if args[0].s is not None else self.concretize_str(args[0], frame, node)
+                if k is not None and k.s is not None:
+                    return self_val.items.get(k.s, args[1] if len(args) > 1 else NONE)
+            if m in ("keys", "values", "items"):
+                vals = {"keys": [StrV(k) for k in self_val.items], "values": list(self_val.items.values()),
+                        "items": [TupV([StrV(k), v]) for k, v in self_val.items.items()]}[m]
+                return ListV("lit", items=vals)
             raise Unmodelled("dict method %s at %s" % (m, frame.loc(node)))
         if d.startswith("str."):
             return Opaque("str." + d[4:])
@@ -377,7 +387,11 @@ class CallMixin:
         if d.startswith("datetime.") or d.startswith("time.") or d.startswith("random.") or d.startswith("numpy.random."):
             self.ctx.event("ambient", d, frame.loc(node))
             return Opaque(d, ambient=True)
-        if d in PURE_EXTERNALS or d.startswith("scipy.optimize."):
+        if d in PURE_EXTERNALS or d.startswith(("scipy.", "numpy.", "math.", "bisect.", "operator.", "statistics.", "cmath.")) \
+                or d in ("builtins.round", "builtins.divmod", "builtins.sorted", "builtins.reversed", "functools.reduce", "builtins.float.is_integer"):
+            if d.startswith("numpy.random"):
+                self.ctx.event("ambient", d, frame.loc(node))
+                return Opaque(d, ambient=True)
             keys = tuple(val_key(self.resolve_maybe(a)) for a in args) + tuple((k, val_key(self.resolve_maybe(v))) for k, v in sorted(kwargs.items()))
             a = poly.T.app("ucall", d, keys)
             self.ctx.event("external", d, frame.loc(node))
